@@ -93,6 +93,9 @@ type followerController struct {
 
 	// Offset of the last entry appended and not fully synced yet on the wal
 	lastAppendedOffset int64
+	// Offsets of the entries that were received again before they were synced:
+	// the sync routine acknowledges them once they are durable
+	unsyncedDuplicates []int64
 
 	status      proto.ServingStatus
 	wal         wal.Wal
@@ -238,6 +241,7 @@ func (fc *followerController) closeStreamNoMutex(err error) {
 		fc.closeStreamWg.Fail(err)
 		fc.closeStreamWg = nil
 	}
+	fc.unsyncedDuplicates = nil
 }
 
 func (fc *followerController) Status() proto.ServingStatus {
@@ -426,6 +430,15 @@ func (fc *followerController) append(req *proto.Append, stream proto.OxiaLogRepl
 	fc.status = proto.ServingStatus_FOLLOWER
 
 	if req.Entry.Offset <= fc.lastAppendedOffset {
+		if req.Entry.Offset > fc.wal.LastOffset() {
+			// The entry was appended (possibly through a previous stream that was closed
+			// before the sync), but it is not synced yet: it must not be acknowledged
+			// before it is durable. The sync routine sends the ack
+			fc.unsyncedDuplicates = append(fc.unsyncedDuplicates, req.Entry.Offset)
+			fc.syncCond.Signal()
+			return nil
+		}
+
 		// This was a duplicated request. We already have this entry
 		fc.log.Debug(
 			"Ignoring duplicated entry",
@@ -473,6 +486,18 @@ func (fc *followerController) handleReplicateSync(stream proto.OxiaLogReplicatio
 		// Ack all the entries that were synced in the last round
 		newHeadOffset := fc.wal.LastOffset()
 		for offset := oldHeadOffset + 1; offset <= newHeadOffset; offset++ {
+			if err := stream.Send(&proto.Ack{Offset: offset}); err != nil {
+				fc.closeStream(err)
+				return
+			}
+		}
+
+		// Ack the duplicates that had to wait for the sync
+		fc.Lock()
+		duplicates := fc.unsyncedDuplicates
+		fc.unsyncedDuplicates = nil
+		fc.Unlock()
+		for _, offset := range duplicates {
 			if err := stream.Send(&proto.Ack{Offset: offset}); err != nil {
 				fc.closeStream(err)
 				return
